@@ -136,6 +136,23 @@ CHECKS = {
              "value, and non-numbers must read as symbol / dotted form / LexException; generated long literals go through "
              "TLC's file mode.",
         note="Texts only CPython's constructors accept (Infinity, 1+j, +NaN, Unicode digits) are open, decided with CPython."),
+    "C23": dict(
+        engine="literals", level="model_checking", design="5.4, 6/C23",
+        technique="TLC enumerates every short string-literal text per prefix with the reader spec's verdict (escape "
+                  "validity table, delimiter matching); real reader compared by status and by CPython's literal value",
+        text="For prefixes '', r, b, br, rb all bodies <= 3 (thorough 4) over 17 characters, and all bracket-string texts, "
+             "are enumerated by TLC from the reader spec, which decides accept / LexException / premature end and delimits "
+             "the raw body; the value must equal ast.literal_eval of the equivalent Python literal, unrecognised escapes "
+             "must be LexException, CR/CRLF read as LF, bracket content is verbatim minus one leading newline.",
+        note="CPython decides escape decoding (\\N{...}, \\U) -- the property names Python as the reference."),
+    "C26": dict(
+        engine="literals", level="model_checking", design="5.4, 6/C26",
+        technique="constructor success vs reading the corresponding text, on every short string; the reader is bound to "
+                  "the TLC-enumerated spec on the same texts",
+        text="For every string <= 3 (thorough 4) characters over the 31-character reader alphabet, Symbol(s) must succeed "
+             "iff reading s yields exactly that symbol and Keyword(s) iff reading ':'+s yields that keyword; for every "
+             "delimiter/content pair String(s, brackets=d) must succeed iff #[d[s]d] reads back as s.",
+        note="The reader side is the real reader, compared with HyReader's verdict on every text (C18 binding)."),
     "C32": dict(
         engine="mangle", level="model_checking", design="5.6, 6/C32",
         technique="TLC checks the mangling laws on all abstract class strings of HyMangle; the exported table is "
